@@ -46,6 +46,8 @@ pub const IT_DRAIN: u8 = 3;
 pub const IT_INTO_ITER: u8 = 4;
 pub const IT_INTO_KEYS: u8 = 5;
 pub const IT_INTO_VALUES: u8 = 6;
+/// what is done with the iterator after the next/next_back calls: nothing, or one of the provided Iterator methods
+pub const FIN_NAMES: [&str; 8] = ["-", "last", "count", "nth1", "nth_back1", "size_hint", "fold", "rev_fold"];
 pub const IT_NAMES: [&str; 7] = ["iter", "keys", "values", "drain", "into_iter", "into_keys", "into_values"];
 
 #[derive(Clone, Debug, PartialEq)]
@@ -77,9 +79,9 @@ pub enum Op {
     ShrinkFit,
     Clear,
     /// kind 0..=3 (iter, keys, values, drain); calls: false = next, true = next_back
-    Iterate { kind: u8, calls: Vec<bool>, forget: bool },
+    Iterate { kind: u8, calls: Vec<bool>, forget: bool, fin: u8 },
     /// kind 4..=6; consumes the current cache
-    Into { kind: u8, calls: Vec<bool>, forget: bool },
+    Into { kind: u8, calls: Vec<bool>, forget: bool, fin: u8 },
     Debug,
     /// push a clone of the current cache
     CloneCache,
@@ -150,8 +152,8 @@ impl Op {
             Op::TryReserveFail { n, fail_at } => format!("try_reserve_fail {} {}", n, fail_at),
             Op::ShrinkTo { n } => format!("shrink_to {}", n),
             Op::ShrinkFit => "shrink_to_fit".into(), Op::Clear => "clear".into(),
-            Op::Iterate { kind, calls: c, forget } => format!("iterate {} {} {}", IT_NAMES[*kind as usize], calls(c), if *forget { "forget" } else { "drop" }),
-            Op::Into { kind, calls: c, forget } => format!("into {} {} {}", IT_NAMES[*kind as usize], calls(c), if *forget { "forget" } else { "drop" }),
+            Op::Iterate { kind, calls: c, forget, fin } => format!("iterate {} {} {} {}", IT_NAMES[*kind as usize], calls(c), if *forget { "forget" } else { "drop" }, FIN_NAMES[*fin as usize]),
+            Op::Into { kind, calls: c, forget, fin } => format!("into {} {} {} {}", IT_NAMES[*kind as usize], calls(c), if *forget { "forget" } else { "drop" }, FIN_NAMES[*fin as usize]),
             Op::Debug => "debug".into(), Op::CloneCache => "clone".into(),
             Op::Switch { idx } => format!("switch {}", idx), Op::DropCache { idx } => format!("drop_cache {}", idx),
             Op::Scalars => "scalars".into(),
@@ -186,8 +188,8 @@ impl Op {
             "reserve" => Op::Reserve { n: num(1)? }, "try_reserve" => Op::TryReserve { n: num(1)? },
             "try_reserve_fail" => Op::TryReserveFail { n: num(1)?, fail_at: num(2)? as u64 },
             "shrink_to" => Op::ShrinkTo { n: num(1)? }, "shrink_to_fit" => Op::ShrinkFit, "clear" => Op::Clear,
-            "iterate" => Op::Iterate { kind: itkind(1)?, calls: calls(2)?, forget: forget(3)? },
-            "into" => Op::Into { kind: itkind(1)?, calls: calls(2)?, forget: forget(3)? },
+            "iterate" => Op::Iterate { kind: itkind(1)?, calls: calls(2)?, forget: forget(3)?, fin: t.get(4).and_then(|n| FIN_NAMES.iter().position(|x| x == n)).unwrap_or(0) as u8 },
+            "into" => Op::Into { kind: itkind(1)?, calls: calls(2)?, forget: forget(3)?, fin: t.get(4).and_then(|n| FIN_NAMES.iter().position(|x| x == n)).unwrap_or(0) as u8 },
             "debug" => Op::Debug, "clone" => Op::CloneCache,
             "switch" => Op::Switch { idx: num(1)? }, "drop_cache" => Op::DropCache { idx: num(1)? },
             "scalars" => Op::Scalars,
@@ -237,6 +239,11 @@ pub struct Outcome {
     pub alloc_failed: u64,
     /// uids dropped while the operation ran (in order), i.e. dropped by the library
     pub drops: Vec<u64>,
+    /// result of the finishing call on an iterator: items it produced (in order), a count, a size hint
+    pub fin_items: Vec<Yield>,
+    pub fin_count: usize,
+    pub fin_hint: (usize, Option<usize>),
+    pub fin_ran: bool,
 }
 
 /// Objects handed back to the harness; dropped outside the operation's drop window.
@@ -256,6 +263,28 @@ static TOKEN: std::sync::atomic::AtomicU64 = std::sync::atomic::AtomicU64::new(1
 fn next_token() -> u64 { TOKEN.fetch_add(1, std::sync::atomic::Ordering::Relaxed) }
 
 fn entry_size_u128(k: &TKey, v: &TVal, base: usize) -> u128 { k.heap as u128 + v.heap as u128 + base as u128 }
+
+/// Drives an iterator: the next/next_back calls, then the finishing call (one of Iterator's provided methods, which a
+/// library may override), then drop or forget. `$conv` turns an item into a `Yield` (and parks owned items).
+macro_rules! drive {
+    ($it:expr, $calls:expr, $forget:expr, $fin:expr, $out:expr, |$x:ident| $conv:expr) => {{
+        let mut it = $it;
+        for back in $calls.iter() {
+            let r = if *back { it.next_back() } else { it.next() };
+            $out.yields.push(match r { Some($x) => $conv, None => Yield { k: None, v: None, kaddr: 0, vaddr: 0, none: true } });
+        }
+        match $fin {
+            1 => { $out.fin_ran = true; if let Some($x) = it.last() { let y = $conv; $out.fin_items.push(y); } }
+            2 => { $out.fin_ran = true; $out.fin_count = it.count(); }
+            3 => { $out.fin_ran = true; if let Some($x) = it.nth(1) { let y = $conv; $out.fin_items.push(y); } if $forget { std::mem::forget(it); } }
+            4 => { $out.fin_ran = true; if let Some($x) = it.nth_back(1) { let y = $conv; $out.fin_items.push(y); } if $forget { std::mem::forget(it); } }
+            5 => { $out.fin_ran = true; $out.fin_hint = it.size_hint(); if $forget { std::mem::forget(it); } }
+            6 => { $out.fin_ran = true; let mut acc = Vec::new(); it.fold((), |_, $x| { let y = $conv; acc.push(y); }); $out.fin_items = acc; }
+            7 => { $out.fin_ran = true; let mut acc = Vec::new(); it.rev().fold((), |_, $x| { let y = $conv; acc.push(y); }); $out.fin_items = acc; }
+            _ => { if $forget { std::mem::forget(it); } }
+        }
+    }};
+}
 
 /// Execute one operation. `caches[*cur]` is the addressed cache. Everything the
 /// library hands back by value is parked in `held`. Panics are caught and reported in
@@ -397,6 +426,8 @@ pub fn apply<S: HB>(caches: &mut Vec<Cache<S>>, cur: &mut usize, op: &Op, held: 
                 Err(hashbrown::TryReserveError::AllocError { .. }) => out.tag = "err_alloc",
             },
             Op::TryReserveFail { n, fail_at } => {
+                // an allocator refusal that is not handled ends the process (handle_alloc_error aborts): leave a marker for the driver
+                { use std::io::Write; println!("CASE try_reserve_fail additional={} refuse_allocation=#{} len={} capacity={}", n, fail_at, caches[*cur].len(), caches[*cur].capacity()); let _ = std::io::stdout().flush(); }
                 valloc::fail_nth(*fail_at);
                 let r = caches[*cur].try_reserve(*n);
                 out.alloc_failed = valloc::fail_off();
@@ -409,42 +440,21 @@ pub fn apply<S: HB>(caches: &mut Vec<Cache<S>>, cur: &mut usize, op: &Op, held: 
             Op::ShrinkTo { n } => caches[*cur].shrink_to(*n),
             Op::ShrinkFit => caches[*cur].shrink_to_fit(),
             Op::Clear => caches[*cur].clear(),
-            Op::Iterate { kind, calls, forget } => {
+            Op::Iterate { kind, calls, forget, fin } => {
                 match *kind {
-                    IT_ITER => { let mut it = caches[*cur].iter();
-                        for back in calls { let r = if *back { it.next_back() } else { it.next() };
-                            out.yields.push(match r { Some((k, v)) => Yield { k: Some(k.uid), v: Some(v.uid), kaddr: k as *const TKey as usize, vaddr: v as *const TVal as usize, none: false }, None => Yield { k: None, v: None, kaddr: 0, vaddr: 0, none: true } }); }
-                        if *forget { std::mem::forget(it); } }
-                    IT_KEYS => { let mut it = caches[*cur].keys();
-                        for back in calls { let r = if *back { it.next_back() } else { it.next() };
-                            out.yields.push(match r { Some(k) => Yield { k: Some(k.uid), v: None, kaddr: k as *const TKey as usize, vaddr: 0, none: false }, None => Yield { k: None, v: None, kaddr: 0, vaddr: 0, none: true } }); }
-                        if *forget { std::mem::forget(it); } }
-                    IT_VALUES => { let mut it = caches[*cur].values();
-                        for back in calls { let r = if *back { it.next_back() } else { it.next() };
-                            out.yields.push(match r { Some(v) => Yield { k: None, v: Some(v.uid), kaddr: 0, vaddr: v as *const TVal as usize, none: false }, None => Yield { k: None, v: None, kaddr: 0, vaddr: 0, none: true } }); }
-                        if *forget { std::mem::forget(it); } }
-                    _ => { let mut it = caches[*cur].drain();
-                        for back in calls { let r = if *back { it.next_back() } else { it.next() };
-                            out.yields.push(match r { Some((k, v)) => { let y = Yield { k: Some(k.uid), v: Some(v.uid), kaddr: 0, vaddr: 0, none: false }; held.keys.push(k); held.vals.push(v); y }, None => Yield { k: None, v: None, kaddr: 0, vaddr: 0, none: true } }); }
-                        if *forget { std::mem::forget(it); } }
+                    IT_ITER => drive!(caches[*cur].iter(), calls, *forget, *fin, out, |x| { let (k, v): (&TKey, &TVal) = x; Yield { k: Some(k.uid), v: Some(v.uid), kaddr: k as *const TKey as usize, vaddr: v as *const TVal as usize, none: false } }),
+                    IT_KEYS => drive!(caches[*cur].keys(), calls, *forget, *fin, out, |x| { let k: &TKey = x; Yield { k: Some(k.uid), v: None, kaddr: k as *const TKey as usize, vaddr: 0, none: false } }),
+                    IT_VALUES => drive!(caches[*cur].values(), calls, *forget, *fin, out, |x| { let v: &TVal = x; Yield { k: None, v: Some(v.uid), kaddr: 0, vaddr: v as *const TVal as usize, none: false } }),
+                    _ => drive!(caches[*cur].drain(), calls, *forget, *fin, out, |x| { let (k, v): (TKey, TVal) = x; let y = Yield { k: Some(k.uid), v: Some(v.uid), kaddr: 0, vaddr: 0, none: false }; held.keys.push(k); held.vals.push(v); y }),
                 }
             }
-            Op::Into { kind, calls, forget } => {
+            Op::Into { kind, calls, forget, fin } => {
                 let c = caches.remove(*cur);
                 *cur = 0;
                 match *kind {
-                    IT_INTO_ITER => { let mut it = c.into_iter();
-                        for back in calls { let r = if *back { it.next_back() } else { it.next() };
-                            out.yields.push(match r { Some((k, v)) => { let y = Yield { k: Some(k.uid), v: Some(v.uid), kaddr: 0, vaddr: 0, none: false }; held.keys.push(k); held.vals.push(v); y }, None => Yield { k: None, v: None, kaddr: 0, vaddr: 0, none: true } }); }
-                        if *forget { std::mem::forget(it); } }
-                    IT_INTO_KEYS => { let mut it = c.into_keys();
-                        for back in calls { let r = if *back { it.next_back() } else { it.next() };
-                            out.yields.push(match r { Some(k) => { let y = Yield { k: Some(k.uid), v: None, kaddr: 0, vaddr: 0, none: false }; held.keys.push(k); y }, None => Yield { k: None, v: None, kaddr: 0, vaddr: 0, none: true } }); }
-                        if *forget { std::mem::forget(it); } }
-                    _ => { let mut it = c.into_values();
-                        for back in calls { let r = if *back { it.next_back() } else { it.next() };
-                            out.yields.push(match r { Some(v) => { let y = Yield { k: None, v: Some(v.uid), kaddr: 0, vaddr: 0, none: false }; held.vals.push(v); y }, None => Yield { k: None, v: None, kaddr: 0, vaddr: 0, none: true } }); }
-                        if *forget { std::mem::forget(it); } }
+                    IT_INTO_ITER => drive!(c.into_iter(), calls, *forget, *fin, out, |x| { let (k, v): (TKey, TVal) = x; let y = Yield { k: Some(k.uid), v: Some(v.uid), kaddr: 0, vaddr: 0, none: false }; held.keys.push(k); held.vals.push(v); y }),
+                    IT_INTO_KEYS => drive!(c.into_keys(), calls, *forget, *fin, out, |x| { let k: TKey = x; let y = Yield { k: Some(k.uid), v: None, kaddr: 0, vaddr: 0, none: false }; held.keys.push(k); y }),
+                    _ => drive!(c.into_values(), calls, *forget, *fin, out, |x| { let v: TVal = x; let y = Yield { k: None, v: Some(v.uid), kaddr: 0, vaddr: 0, none: false }; held.vals.push(v); y }),
                 }
             }
             Op::Debug => { out.debug = Some(format!("{:?}", caches[*cur])); }
